@@ -219,6 +219,7 @@ void   mon_slots_check_report(void);     /* adds slot-bound failures to the json
 long   mon_slot_allocs(void);
 long   mon_perturbs(void);
 long   mon_swaps(void);
+long   mon_sched_none(void);
 /* analysis over a merged log; etree may be NULL (then scheduler-contract checks are skipped) */
 typedef struct {
     long n_events, panels, relaxed_panels, pipelined_takes, dad_takes, waits_blocked, wait_points,
